@@ -340,10 +340,10 @@ type level struct{ k, total, want int }
 
 // The levels in size order and how many rule sets are taken from each.
 var levels = []level{
-	{1, 1, 7}, {1, 2, 8}, {1, 3, 8}, {1, 4, 8},
-	{2, 2, 12}, {2, 3, 14}, {2, 4, 14}, {2, 5, 12}, {2, 6, 8},
-	{3, 3, 12}, {3, 4, 14}, {3, 5, 12}, {3, 6, 10},
-	{4, 4, 8}, {4, 5, 8}, {4, 6, 6},
+	{1, 1, 5}, {1, 2, 6}, {1, 3, 6}, {1, 4, 6},
+	{2, 2, 9}, {2, 3, 11}, {2, 4, 11}, {2, 5, 10}, {2, 6, 6},
+	{3, 3, 9}, {3, 4, 11}, {3, 5, 10}, {3, 6, 8},
+	{4, 4, 6}, {4, 5, 6}, {4, 6, 5},
 }
 
 const numDecorations = 7
@@ -671,7 +671,7 @@ func boundaryInputs(g *lexGrammar) *extraInputs {
 func buildGrammars() []*lexGrammar {
 	byFam := map[string][]*lexGrammar{}
 	var order []string
-	for _, g := range append(craftedGrammars(), enumGrammars()...) {
+	for _, g := range append(append(craftedGrammars(), targetedGrammars()...), enumGrammars()...) {
 		if _, ok := byFam[g.Family]; !ok {
 			order = append(order, g.Family)
 		}
@@ -743,4 +743,76 @@ func buildGrammars() []*lexGrammar {
 		out[next] = g
 	}
 	return out
+}
+
+// targetedGrammars: two families aimed at interactions the other families do not reach.
+//
+// "hibytes": classes over bytes 0x80..0xff. In byte mode case folding concerns ASCII letters only,
+// so under scanBytes + caseInsensitive a class with the byte c3 must not match e3 (the Latin-1
+// partner); every grammar exists once for {scanBytes, caseInsensitive} and once for {scanBytes}
+// in the quick tier's subset (the slotting spreads them over the other three options), and runs
+// on words over high bytes that are Latin-1 case partners (c3/e3, c9/e9, d0/f0), bytes without a
+// partner (df, ff) and continuation bytes.
+//
+// "backtrack" (shared tail): two or three different short tokens that are prefixes of one longer
+// token with a common remainder, so that the fall-back token depends on the path by which the
+// longer attempt was entered.
+func targetedGrammars() []*lexGrammar {
+	var gs []*lexGrammar
+	hiLetters := []string{"a", "\xc3", "\xe3", "\xc9", "\xe9", "\xd0", "\xf0", "\xdf", "\xff", "\x82", "\xac"}
+	nHi := 0
+	hi := func(rules ...rule) {
+		// grammar j gets tokenLine/tokenColumn/nonBacktracking = the bits of j: the eight grammars
+		// cover the eight subsets with {scanBytes, caseInsensitive} and the eight with {scanBytes} only
+		rest := nHi&1*optTokenLine | nHi>>1&1*optTokenColumn | nHi>>2&1*optNonBacktracking
+		nHi++
+		for _, fold := range []bool{true, false} {
+			g := &lexGrammar{Family: "hibytes", Conds: conds(), Rules: rules, Tags: []string{"high-byte-classes"},
+				Extra: &extraInputs{Letters: hiLetters, MaxLen: 3}}
+			g.On = optScanBytes | rest
+			if fold {
+				g.On |= optCaseInsensitive
+			}
+			g.Off = 31 &^ g.On
+			gs = append(gs, g)
+		}
+	}
+	hi(R("t0", cls(false, 0xc3, 0xc3)))
+	hi(R("latin", rxref.Cat(cls(false, 0xc2, 0xdf), cls(false, 0x80, 0xbf))), R("word", plus(cls(false, 'a', 'z'))))
+	hi(R("three", rxref.Cat(cls(false, 0xe0, 0xef), cls(false, 0x80, 0xbf), cls(false, 0x80, 0xbf))), R("latin", rxref.Cat(cls(false, 0xc2, 0xdf), cls(false, 0x80, 0xbf))))
+	hi(R("hi", plus(cls(false, 0x80, 0xff))), R("t0", lits("a")))
+	hi(R("up", plus(cls(false, 0xc0, 0xde))), R("lo", plus(cls(false, 0xe0, 0xfe))))
+	hi(R("neg", plus(cls(true, 0xc3, 0xc3, '\n', '\n'))), R("nl", lits("\n")).space())
+	hi(R("t0", cls(false, 0xc9, 0xc9, 0xd0, 0xd0)), R("t1", plus(cls(false, 0xe3, 0xe3, 0xdf, 0xdf))), R("t2", lits("a")))
+	hi(R("t0", plus(cls(false, 0xdf, 0xdf, 0xff, 0xff))), R("t1", rxref.Cat(cls(false, 0xc3, 0xc9), rxref.Lit('a'))), R("t2", cls(false, 0xf0, 0xf0)))
+
+	n := 0
+	tail := func(extra *extraInputs, rules ...rule) {
+		g := &lexGrammar{Family: "backtrack", Conds: conds(), Rules: rules, Tags: []string{"backtracking", "backtracking:shared-tail"}, Extra: extra}
+		g.Off = optNonBacktracking
+		if n%2 == 1 {
+			g.On = optScanBytes
+		} else {
+			g.Off |= optScanBytes
+		}
+		if n%4 < 3 { // (a and A are different tokens in two of them: no folding there)
+			g.Off |= optCaseInsensitive
+		}
+		n++
+		gs = append(gs, g)
+	}
+	ab := func() *rxref.Node { return cls(false, 'a', 'b') }
+	tail(nil, R("ta", lits("a")), R("tb", lits("b")), R("long", rxref.Cat(ab(), lits("AA"))))
+	tail(nil, R("ta", lits("a")), R("tb", lits("b")), R("long", rxref.Cat(rxref.Alt(lits("a"), lits("b")), lits("A ")))) // literals instead of a class
+	tail(nil, R("ta", lits("a")), R("tb", lits("b")), R("tc", lits("A")), R("long", rxref.Cat(cls(false, 'a', 'b', 'A', 'A'), lits("  "))))
+	tail(nil, R("ta", lits("a")), R("tb", lits("b")), R("long", rxref.Cat(ab(), lits("\n\n"))), R("nl", lits("\n")).space())         // fall back across newlines
+	tail(nil, R("ta", lits("a")).space(), R("tb", lits("b")), R("long", rxref.Cat(ab(), lits("AA"))), R("invalid_token", lits(" "))) // rule -> token table: the fall-back carries (space)
+	tail(nil, R("ta", lits("ab")), R("tb", lits("ba")), R("long", rxref.Cat(rxref.Alt(lits("ab"), lits("ba")), lits("AA"))))
+	tail(nil, R("ta", lits("a")), R("tb", lits("b")), R("long", rxref.Cat(ab(), plus(lits("A")), lits("b")))) // loop inside the common remainder
+	tail(nil, R("ta", ab()), R("tb", lits("A")), R("tc", lits(" ")), R("long", rxref.Cat(cls(false, 'a', 'b', 'A', 'A', ' ', ' '), lits("é"), lits("a"))))
+	// multi-byte remainder: in byte mode the long attempt can fail inside 😀
+	emoji := &extraInputs{Letters: []string{"a", "é", "\xf0", "\x9f", "\x98", "\x80", "b"}, MaxLen: 4}
+	tail(emoji, R("ta", lits("é")), R("tb", lits("a")), R("long", rxref.Cat(rxref.Alt(lits("é"), lits("a")), lits("😀b"))))
+	tail(emoji, R("ta", lits("é")), R("tb", lits("a")), R("long", rxref.Cat(rxref.Alt(lits("é"), lits("a")), lits("😀b"))))
+	return gs
 }
